@@ -111,7 +111,7 @@ func explainOne(stmt ast.Statement) (out string, panicked bool) {
 			panicked = true
 		}
 	}()
-	return parser.Explain(stmt), false
+	return rdr.Twice(func() string { return parser.Explain(stmt) }), false
 }
 
 // splitStatements and findCommentStart are copies of the functions of the same name in
